@@ -255,12 +255,28 @@ fn uri_as_iri(t: &Triple, cx: &mut Ctx) -> Result<(), Failure> {
 	Ok(())
 }
 
+/// Data URLs: `DataUrlBuf: Borrow<DataUrl>` (feature `data`).
+fn data_url_views(t: &Triple, cx: &mut Ctx) -> Result<(), Failure> {
+	use iref::uri::data::{DataUrl, DataUrlBuf};
+	if let (Ok(a), Ok(b), Ok(c)) = (DataUrl::new(t.a.as_str()), DataUrl::new(t.b.as_str()), DataUrl::new(t.c.as_str())) {
+		laws::<DataUrl>(t, cx, a, b, c)?;
+		let ab = DataUrlBuf::new(t.a.as_bytes().to_vec()).map_err(|_| Failure::new("harness", "DataUrlBuf rejects what DataUrl accepts (C18)".to_string()))?;
+		let bb = DataUrlBuf::new(t.b.as_bytes().to_vec()).map_err(|_| Failure::new("harness", "DataUrlBuf rejects what DataUrl accepts (C18)".to_string()))?;
+		let cb = DataUrlBuf::new(t.c.as_bytes().to_vec()).map_err(|_| Failure::new("harness", "DataUrlBuf rejects what DataUrl accepts (C18)".to_string()))?;
+		laws::<DataUrlBuf>(t, cx, &ab, &bb, &cb)?;
+		ensure!((ab == bb) == (a == b) && ab.cmp(&bb) == a.cmp(b) && h2(&ab) == h2(a), "owned-vs-borrowed:DataUrl", "DataUrlBuf and DataUrl forms of {:?} / {:?} compare or hash differently (==: {} vs {}, hash equal: {})", t.a, t.b, ab == bb, a == b, h2(&ab) == h2(a));
+		view::<DataUrlBuf, DataUrl>("DataUrlBuf as DataUrl", t, cx, ab, bb)?;
+		cx.class("view:data-url");
+	}
+	Ok(())
+}
+
 impl Prop for C08 {
 	type Case = Triple;
 	const ID: &'static str = "C08";
 
 	fn rule() -> String {
-		"cases = the C07 triples (family, kind, a, b, c: chains of metamorphic variants or independent values; ill-formed %XX octets included). Oracle (metamorphic): on all 9 ordered pairs: a == b => equal hashes under two fixed hashers (std DefaultHasher with fixed keys, FNV-1a written in the harness); cmp antisymmetric, cmp == Equal <=> ==, partial_cmp == Some(cmp); <= transitive over the 6 permutations; owned forms give the same answers as borrowed forms; all 23 cross-type PartialOrd impls agree; the four forms RiRef/RiRefBuf/Ri/RiBuf of one text hash identically; for every Borrow<U> for K between the library's own types (every TBuf->T, RiBuf->RiRef, Ri->RiRef, Uri/UriBuf->Iri/IriRef): hash(k) == hash(k.borrow()), cmp and == agree, HashSet<K>/BTreeSet<K> lookups through the view of an equal value hit and of an unequal value miss. Non-trivial: an equal-but-textually-different pair, or a lookup through a view of another type.".into()
+		"cases = the C07 triples (family, kind, a, b, c: chains of metamorphic variants or independent values; ill-formed %XX octets included). Oracle (metamorphic): on all 9 ordered pairs: a == b => equal hashes under two fixed hashers (std DefaultHasher with fixed keys, FNV-1a written in the harness); cmp antisymmetric, cmp == Equal <=> ==, partial_cmp == Some(cmp); <= transitive over the 6 permutations; owned forms give the same answers as borrowed forms; all 23 cross-type PartialOrd impls agree; the four forms RiRef/RiRefBuf/Ri/RiBuf of one text hash identically; for every Borrow<U> for K between the library's own types (every TBuf->T, DataUrlBuf->DataUrl, RiBuf->RiRef, Ri->RiRef, Uri/UriBuf->Iri/IriRef): hash(k) == hash(k.borrow()), cmp and == agree, HashSet<K>/BTreeSet<K> lookups through the view of an equal value hit and of an unequal value miss. Non-trivial: an equal-but-textually-different pair, or a lookup through a view of another type.".into()
 	}
 
 	fn cases(tier: Tier) -> u64 {
@@ -283,6 +299,7 @@ impl Prop for C08 {
 		}
 		if t.fam == Fam::Uri && t.kind == Kind::Full {
 			uri_as_iri(t, cx)?;
+			data_url_views(t, cx)?;
 		}
 		cx.class("judged");
 		cx.class(t.kind.label());
@@ -300,7 +317,7 @@ impl Prop for C08 {
 
 	fn floors(_tier: Tier) -> Vec<(&'static str, u64)> {
 		let mut v: Vec<(&'static str, u64)> = crate::props::cmpgen::KINDS.iter().map(|k| (k.label(), 3_000)).collect();
-		v.extend([("judged", 100_000), ("equal-but-textually-different", 30_000), ("view:full-as-reference", 5_000), ("view:uri-as-iri", 2_000), ("cross-type:full", 5_000)]);
+		v.extend([("judged", 100_000), ("equal-but-textually-different", 30_000), ("view:full-as-reference", 5_000), ("view:uri-as-iri", 2_000), ("view:data-url", 250), ("cross-type:full", 5_000)]);
 		v
 	}
 }
